@@ -161,6 +161,7 @@ type Party struct {
 	pol     int
 	rnd     *randLog
 	events  []int
+	storm   int // message events seen (every 256th one looks at the stack depth)
 	outs    [][]byte   // every wire message emitted (reassembled if it was fragmented), oldest first
 	pieces  [][][]byte // the pieces each output was actually emitted as
 	frag    int
@@ -185,6 +186,16 @@ func (p *Party) HandleSMPEvent(e otr3.SMPEvent, pct int, q string) {
 }
 func (p *Party) HandleMessageEvent(e otr3.MessageEvent, m []byte, err error, trace ...interface{}) {
 	p.events = append(p.events, int(e))
+	// a call that re-enters itself without end would finish as a fatal stack overflow of the whole harness: every 256th
+	// event the depth of the call stack is looked at, and a depth no legitimate call comes near is turned into a panic
+	// the guards can report
+	p.storm++
+	if p.storm%256 == 0 {
+		var pcs [4096]uintptr
+		if runtime.Callers(0, pcs[:]) == len(pcs) {
+			panic("runaway recursion: the message event handler was called more than 4096 frames deep")
+		}
+	}
 }
 func (p *Party) HandleSecurityEvent(e otr3.SecurityEvent)   { p.events = append(p.events, 100+int(e)) }
 func (p *Party) HandleErrorMessage(e otr3.ErrorCode) []byte { return []byte{byte(e)} }
